@@ -937,14 +937,17 @@ def _run(chk, wd, proved):
     for ta in MENU:
         for tb in MENU:
             histories.append(history_from([('add_pool', 'A', ta), ('add_pool', 'B', tb), ('remove_pool', 'A'),
-                                           ('add_pool', 'A', ta), ('remove_pool', 'B'), ('remove_pool', 'A')]))
+                                           ('add_pool', 'A', ta), ('remove_pool_refused', 'B'), ('remove_pool', 'B'),
+                                           ('remove_pool_refused', 'A'), ('remove_pool', 'A')]))
     n_hist_exh = len(histories)
     for _ in range(40 if quick else 1200):
         alive = {}
         pool_ops = []
         for _ in range(rng.randrange(3, 9)):
             nm = rng.choice('ABC')
-            if nm in alive and rng.random() < 0.6:
+            if nm in alive and rng.random() < 0.25:
+                pool_ops.append(('remove_pool_refused', nm))     # listener still running: refused, nothing changes
+            elif nm in alive and rng.random() < 0.6:
                 pool_ops.append(('remove_pool', nm))
                 del alive[nm]
             elif rng.random() < 0.1:
@@ -959,7 +962,7 @@ def _run(chk, wd, proved):
     seen_w = set()
     for ops in histories:
         emitted, incs, results = I.run_pool_history(ops)
-        chk.dist('world:pool_ops%d' % len([o for o in ops if o[0] in ('add_pool', 'remove_pool')]))
+        chk.dist('world:pool_ops%d' % len([o for o in ops if o[0] in ('add_pool', 'remove_pool', 'remove_pool_refused')]))
         parsed_by_inc = []
         bad = None
         for i, inc in enumerate(incs):
@@ -986,9 +989,10 @@ def _run(chk, wd, proved):
                                emitted=[[cn, pl] for cn, pl, _, _, _ in emitted]))
         # model: envelopes per (event, pool name) after the pool operations performed so far
         for cn, pl, serial, alive, oi in emitted:
-            prefix = [o for o in ops[:oi + 1] if o[0] in ('add_pool', 'remove_pool')]
+            prefix = [o for o in ops[:oi + 1] if o[0] in ('add_pool', 'remove_pool', 'remove_pool_refused')]
             wterm = coq_list(('(WAdd %d %s)' % (name_id[o[1]], coq_list(cls_term(getattr(events.EventTypes, t)) for t in o[2])))
-                             if o[0] == 'add_pool' else '(WRemove %d)' % name_id[o[1]] for o in prefix)
+                             if o[0] == 'add_pool' else ('(WRemove %d)' if o[0] == 'remove_pool' else '(WRemoveRefused %d)') % name_id[o[1]]
+                             for o in prefix)
             for nm, pid_ in name_id.items():
                 # envelopes on the stdin of every incarnation of that name (removed ones must stay silent)
                 cnt = 0
@@ -1259,8 +1263,10 @@ def _run(chk, wd, proved):
                     options.append(('ready', i))
                 elif state[i] == 'busy':
                     options += [('ok', i), ('fail', i)] + ([] if pipes else [('garbage', i), ('reap', i)])
-                elif state[i] in ('unknown', 'ready') and not pipes:
+                elif state[i] in ('unknown', 'ready', 'broken') and not pipes:
                     options.append(('reap', i))
+                    if state[i] == 'ready':
+                        options.append(('epipe', i))
             o = choose(step, options)
             if o == 'emit':
                 ops.append(('emit',))
@@ -1286,6 +1292,8 @@ def _run(chk, wd, proved):
                     if state[i] == 'busy':
                         buf.insert(0, busy[i])
                     state[i], busy[i] = 'dead', None
+                elif k == 'epipe':
+                    state[i] = 'broken'     # READY in supervisord's eyes, but every write fails with EPIPE: skipped
                 elif k == 'full':
                     full[i] = True
                 elif k == 'drain':
@@ -1299,7 +1307,7 @@ def _run(chk, wd, proved):
 
     def lop_term(o):
         return {'emit': 'LEmit', 'dispatch': 'LDispatch'}.get(o[0]) or '(%s %d)' % (
-            {'ready': 'LSayReady', 'ok': 'LOk', 'fail': 'LFail', 'garbage': 'LGarbage', 'reap': 'LReap'}[o[0]], o[1])
+            {'ready': 'LSayReady', 'ok': 'LOk', 'fail': 'LFail', 'garbage': 'LGarbage', 'reap': 'LReap', 'epipe': 'LBreak'}[o[0]], o[1])
 
     def run_listeners(n, ops, want_sent, want_buf):
         per_op, left = I.run_listener_history(n, ops)
@@ -1352,6 +1360,14 @@ def _run(chk, wd, proved):
             it = iter(ops)
             o2, ws, wb = listener_script(2, lambda step, options: (lambda o: o[0] if o[0] in ('emit', 'dispatch') else o)(next(it)), len(ops))
             run_listeners(2, o2, ws, wb)
+    for ops in ([('ready', 0), ('ready', 1), ('epipe', 0), ('emit',), ('dispatch',), ('ok', 1), ('ready', 1), ('reap', 0), ('dispatch',),
+                 ('emit',), ('dispatch',)],
+                [('ready', 0), ('epipe', 0), ('emit',), ('dispatch',), ('ready', 1), ('dispatch',), ('ok', 1), ('reap', 0), ('ready', 1),
+                 ('dispatch',)]):
+        it = iter(ops)
+        o2, ws, wb = listener_script(2, lambda step, options: (lambda o: o[0] if o[0] in ('emit', 'dispatch') else o)(next(it)), len(ops))
+        run_listeners(2, o2, ws, wb)
+        chk.dist('listeners:epipe-take-over')
     for _ in range(150 if quick else 4000):
         n = rng.choice([2, 2, 3])
 
